@@ -123,13 +123,17 @@ def _target(fn):
     return lambda b, r: b.build(target=fn(b, r))
 
 
-def _tls_record(r, minor, hello_version=b'\x03\x03', with_crlf=False):
+def _tls_record(r, minor, hello_version=b'\x03\x03', with_crlf=False, with_esc=False):
     rand = bytes(r.randrange(256) for _ in range(32))
+    if not with_esc:
+        rand = rand.replace(b'\\', b'/')           # a backslash may start an escape the first-line decoder refuses
     if with_crlf:
         rand = rand[:10] + b'\r\n' + rand[12:22] + b'\r\n\r\n' + rand[26:]
+        if with_esc:
+            rand = rand[:4] + b'\\x' + rand[6:]
     else:
         rand = rand.replace(b'\r', b'\x11').replace(b'\n', b'\x12')
-    sid = bytes(r.randrange(1, 256) for _ in range(32)).replace(b'\r', b'\x11').replace(b'\n', b'\x12')
+    sid = bytes(r.randrange(1, 256) for _ in range(32)).replace(b'\r', b'\x11').replace(b'\n', b'\x12').replace(b'\\', b'/')
     suites = b'\x13\x01\x13\x02\xc0\x2f\xc0\x30\x00\x9c\x00\x2f\x00\x35'
     ext = b'\x00\x00\x00\x12\x00\x10\x00\x00\x0dverif.example' + b'\x00\x2b\x00\x03\x02\x03\x04'
     body = hello_version + rand + bytes([len(sid)]) + sid + len(suites).to_bytes(2, 'big') + suites + b'\x01\x00' + \
@@ -335,6 +339,7 @@ SUBS = {
         ('tls13', 'mal', lambda b, r: _tls_record(r, 3)),
         ('ssl30', 'mal', lambda b, r: _tls_record(r, 0, b'\x03\x00')),
         ('tls12_crlf', 'mal', lambda b, r: _tls_record(r, 1, with_crlf=True)),
+        ('tls12_crlf_esc', 'mal', lambda b, r: _tls_record(r, 1, with_crlf=True, with_esc=True)),
         ('tls_split_2', 'mal', lambda b, r: _tls_record(r, 1)[:2]),
         ('sslv2', 'mal', lambda b, r: _sslv2_hello(r)),
         ('sslv2_short', 'mal', lambda b, r: _sslv2_hello(r)[:1]),
